@@ -110,6 +110,20 @@ static void handler(const Line& t, Out& o) {
     o.R((I)u.n_); o.R(vh::dbits(u.outer_tau_numer_)); o.R((I)u.outer_tau_denom_); o.R((I)u.max_k_);
     o.R((I)u.gadget_.num_marks_in_h_);
     dump(u.gadget_, o); break; }
+  case 15: { // union u: serialize, deserialize into union u2 (mode 0 bytes, 1 stream, 2 bytes with header)
+    vu_t& u = getu(t.at(1)); int mode = (int)t.at(3);
+    std::unique_ptr<vu_t> p;
+    if (mode == 1) {
+      std::stringstream ss(std::ios::in | std::ios::out | std::ios::binary);
+      u.serialize(ss);
+      p.reset(new vu_t(vu_t::deserialize(ss)));
+    } else {
+      unsigned hdr = mode == 2 ? 8 : 0;
+      auto bytes = u.serialize(hdr);
+      p.reset(new vu_t(vu_t::deserialize(bytes.data() + hdr, bytes.size() - hdr)));
+    }
+    unions[(long)t.at(2)] = std::move(p);
+    o.R(1); break; }
   default: o.R(-2);
   }
 }
